@@ -378,8 +378,41 @@ def perturb_case(case, res):
             if a.ndim == zr.ndim:
                 expect_reject([a, zr], "different class")
             expect_reject([z[:3], z[3:]], "Signal along 'freq'", axis="freq")
+        if cls != "Signal":
+            # the same perturbations made by ASSIGNMENT on a piece whose labels were already read (stale-cache trap)
+            for attr, val, what in (("freq_align", "bottom", "freq_align assigned top->bottom after a first join"),
+                                    ("center_freq", None, "center_freq assigned +1 channel after a first join")):
+                x, y = z[:3], z[3:]
+                pb.concatenate([x, y])                 # first, a valid join reads every piece's labels
+                _ = y.channel_freqs
+                if attr == "freq_align":
+                    y.freq_align = "".join(list(val))
+                else:
+                    y.center_freq = y.center_freq + y.chan_bw
+                expect_reject([x, y], what)
+                _ = x.channel_freqs
+                y2 = z[3:]
+                y2.sample_rate = y2.sample_rate * (1 + 1e-3)
+                expect_reject([x, y2], "sample_rate assigned x(1+1e-3)")
         expect_reject([], "empty list")
         expect_reject([np.zeros(3), np.zeros(3)], "non-Signal")
+    # far from the first piece a one-sample error must still be refused (no tolerance that grows with elapsed time)
+    if cls == "Signal":
+        for rate in ("1kHz", "third_MHz", "1GHz"):
+            big = factory.make("Signal", np.zeros(300000, np.float32), rate_name=rate, start_name="iso")
+            for k in (100003, 250001):
+                for pieces, what in (([big[:k], big[k + 1:]], f"gap of one sample at {k}"), ([big[:k + 1], big[k:]], f"overlap of one at {k}"),
+                                     ([big[:5], big[5:k], big[k + 2:]], f"gap of two samples at {k}, three pieces")):
+                    res.transitions += 1
+                    try:
+                        pb.concatenate(pieces)
+                        res.violation(f"perturb|far from start accepted", f"{what} ({rate}) was joined", case, {"what": what, "rate": rate})
+                    except Exception:
+                        res.hits["perturbed piece rejected"] += 1
+            ok = pb.concatenate([big[:100003], big[100003:250001], big[250001:]])
+            if len(ok) != 300000:
+                res.violation("perturb|far from start valid rejected", "valid long split not rejoined", case, None)
+            res.hits["one-sample error far from the start"] += 1
     res.sample({"cls": cls, "perturbations": "start_time +-1,+-2,+-1/2 sample; rate/bw x (1+-1e-3); swapped; overlap; gap"}, 1)
 
 
@@ -394,7 +427,7 @@ def main(argv=None):
         PID, gen_cases=gen_cases, check_case=check_case, describe=describe,
         required_hits=["empty piece", "piece without start time", "leading start-less piece (start extrapolated backwards)",
                        "grouping", "non-contiguous in time rejected", "non-contiguous in frequency rejected",
-                       "joined along frequency", "other-axis mismatch rejected", "perturbed piece rejected"],
+                       "joined along frequency", "other-axis mismatch rejected", "perturbed piece rejected", "one-sample error far from the start"],
         assumptions=["a sequence must be rejected only if two NON-EMPTY start-bearing pieces are inconsistent by >= 1 sample "
                      "(mis-stamped empty pieces are unconstrained); rates above ~10 GHz are outside the quantifier "
                      "(Time.isclose window 40 ps)", "any exception class counts as rejection"],
